@@ -1463,7 +1463,12 @@ func (d *DFA) tryClearCache(cache *DFACache) error {
 	startState := NewStateWithStride(StartState, startStateSet, false, false, d.AlphabetLen())
 
 	key := computeOrderedStateKey(startStateSet, false, false)
-	_, _ = cache.Insert(key, startState) // Cannot fail: cache was just cleared
+	if _, err := cache.Insert(key, startState); err != nil {
+		// Even the start state does not fit into this cache. Registering it anyway
+		// would file it under ID InvalidState (table offset 0) and point the start
+		// table at the reserved row 0; report the cache as unusable instead.
+		return ErrCacheFull
+	}
 	cache.registerState(startState)
 
 	// Tag as start state (same as getStartState)
